@@ -68,7 +68,7 @@ def resolve_name(env, node, depth=4):
 
 
 # ------------------------------------------------------------------------------------------------ guards
-_BOOLISH = (ast.Compare, ast.BoolOp, ast.UnaryOp, ast.Name)
+_BOOLISH = (ast.Compare, ast.BoolOp, ast.UnaryOp, ast.Name, ast.Call)
 _FLIP = {ast.IsNot: ast.Is, ast.NotEq: ast.Eq, ast.NotIn: ast.In}
 
 
@@ -331,12 +331,27 @@ def _top_call(st) -> Optional[ast.Call]:
     return None
 
 
+def _callee(resolve, call):
+    """(helper FunctionDef | None, call with the receiver of a method call prepended to the arguments).
+    `resolve(call)` returns None, a FunctionDef (plain function: `f(..)`), or (FunctionDef, receiver expr) for a
+    method whose first parameter is bound to the receiver (`self.helper(..)`)."""
+    r = resolve(call)
+    if r is None:
+        return None, call
+    if isinstance(r, tuple):
+        h, recv = r
+        if recv is not None:
+            call = ast.copy_location(ast.Call(func=call.func, args=[recv] + list(call.args), keywords=list(call.keywords)), call)
+        return h, call
+    return r, call
+
+
 def _inline_stmt(st, resolve, caller_names, counter):
     """list of statements replacing `st`, or None when st is not a direct call of a resolvable helper"""
     call = _top_call(st)
-    if call is None or not isinstance(call.func, ast.Name):
+    if call is None:
         return None
-    h = resolve(call.func.id)
+    h, call = _callee(resolve, call)
     if h is None:
         return None
     counter[0] += 1
@@ -383,6 +398,7 @@ def _inline_stmt(st, resolve, caller_names, counter):
         new.extend(fall)
         new.append(ast.copy_location(ast.Break(), st))
     loop = ast.copy_location(ast.While(test=ast.Constant(value=True), body=new, orelse=[]), st)
+    loop._inline_scaffold = True  # not a loop of the program: every path through the body leaves it
     return pro + [loop]
 
 
@@ -414,13 +430,11 @@ class _ExprInliner(ast.NodeTransformer):
 
     def visit_Call(self, c):
         self.generic_visit(c)
-        if not isinstance(c.func, ast.Name):
-            return c
-        h = self.resolve(c.func.id)
+        h, bound = _callee(self.resolve, c)
         if h is None or _pure_expr_helper(h) is None:
             return c
         self.counter[0] += 1
-        inst = _instantiate(c, h, self.caller_names, f"{h.name.strip('_')}{self.counter[0]}")
+        inst = _instantiate(bound, h, self.caller_names, f"{h.name.strip('_')}{self.counter[0]}")
         if inst is None:
             return c
         pro, body = inst
@@ -448,8 +462,15 @@ def _walk_blocks(fn):
                 stack.append(case.body)
 
 
-def inline_local_calls(fn, resolve: Callable[[str], Optional[ast.FunctionDef]], depth: int = 3):
-    """A private deep copy of `fn` in which calls of helpers that `resolve(name)` knows (sibling closures, module
+def by_name(table: Callable[[str], Optional[ast.FunctionDef]]):
+    """resolver for plain-name callees: `helper(..)`"""
+    def resolve(call):
+        return table(call.func.id) if isinstance(call.func, ast.Name) else None
+    return resolve
+
+
+def inline_local_calls(fn, resolve, depth: int = 3):
+    """A private deep copy of `fn` in which calls of helpers that `resolve(call)` knows (sibling closures, module
     functions) are replaced by the helper's body, parameters bound to the arguments:
 
     * `helper(..)` / `x = helper(..)` / `return helper(..)` as a whole statement: the body is spliced in; a `return`
@@ -463,10 +484,12 @@ def inline_local_calls(fn, resolve: Callable[[str], Optional[ast.FunctionDef]], 
     counter = [0]
     own = fn.name
 
-    def res(name):
-        if name == own:
+    def res(call):
+        r = resolve(call)
+        h = r[0] if isinstance(r, tuple) else r
+        if h is None or h is fn or h.name == own:
             return None
-        return resolve(name)
+        return r
 
     for _ in range(depth):
         changed = 0
